@@ -163,9 +163,10 @@ fn seq_history(out: &mut impl Write, cid: &str, lang_id: &str, b: &zoo::Built, p
             progress_parse(&mut p, text, old)
         }
     };
+    writeln!(out, "spec {cid} seq {lang_id} {} {seed} {nops}", if persist { "persist" } else { "fresh" }).unwrap();
+    out.flush().unwrap();
     let Some(t0) = parse(&mut shared_parser, &text, None) else { return 0 };
     let mut fam = Fam { trees: vec![Some(t0)], texts: vec![text], dirty: vec![false] };
-    writeln!(out, "spec {cid} seq {lang_id} {} {seed} {nops}", if persist { "persist" } else { "fresh" }).unwrap();
     writeln!(out, "case {cid} mode={}", if persist { "persist" } else { "fresh" }).unwrap();
     emit_state(out, &fam);
     writeln!(out, "run").unwrap();
@@ -288,6 +289,8 @@ fn thr_case(out: &mut impl Write, cid: &str, lang_id: &str, b: &zoo::Built, seed
     let text = gen_doc(b, lang_id, &mut rng);
     let mut p = Parser::new();
     p.set_language(&b.language).unwrap();
+    writeln!(out, "spec {cid} thr {lang_id} {seed} {nthreads} {nops}").unwrap();
+    out.flush().unwrap();
     let Some(base) = progress_parse(&mut p, &text, None) else { return false };
     drop(p);
     let seeds: Vec<u64> = (0..nthreads).map(|_| rng.next()).collect();
@@ -296,7 +299,6 @@ fn thr_case(out: &mut impl Write, cid: &str, lang_id: &str, b: &zoo::Built, seed
     for s in &seeds {
         seq_res.push(thread_work(&b.language, base.clone(), text.clone(), *s, nops));
     }
-    writeln!(out, "spec {cid} thr {lang_id} {seed} {nthreads} {nops}").unwrap();
     writeln!(out, "case {cid} mode=fresh").unwrap();
     // state 0: base + the sequential results; then the base + threaded results; `same` = all handles equal
     let seq_obs: Vec<(Vec<u8>, Vec<usize>)> = seq_res.iter().map(|r| (r.1.clone(), r.2.clone())).collect();
@@ -365,7 +367,7 @@ fn main() {
             specs.extend(c.lines().filter(|l| !l.trim().is_empty() && !l.starts_with('#')).map(|s| s.to_string()));
         }
         let mut rng = Rng::new(seed_from_env());
-        let langs = ["arith", "lst", "stmt", "jsonish", "fx_external_tokens", "fx_external_and_internal_tokens", "fx_inline_rules", "fx_aliased_rules"];
+        let langs = ["arith", "lst", "stmt", "jsonish", "fx_external_tokens", "c08scan", "fx_inline_rules", "fx_aliased_rules", "fx_external_and_internal_tokens", "c08scan"];
         let (nseq, nthr) = if thorough { (160, 48) } else { (28, 10) };
         for i in 0..nseq {
             let lang = langs[i % langs.len()];
